@@ -102,6 +102,8 @@ class MiniEval:
     def call(self, f, args, kwargs=None, depth=0):
         if depth > 6:
             raise AnalysisError("ordering abstraction: call depth exceeded at %s" % f.qualname)
+        if f.opaque_decorators:
+            raise AnalysisError("%s is decorated with @%s: not modelled" % (f.qualname, ", @".join(f.opaque_decorators)))
         kwargs = dict(kwargs or {})
         params = f.params
         if len(args) > len(params):
